@@ -420,7 +420,11 @@ func checkState(env *Env, ns walletdb.ReadWriteBucket, ref *ledger.Ref, cfg Conf
 	}
 	rep := func(prop, sig, msg string) {
 		if report != nil {
-			report(prop, sig+":after="+last, msg+" after ["+ledger.HistString(hist)+"] in "+u.String(), u, hist)
+			tag := ""
+			if u.Tag != "" {
+				tag = ":" + u.Tag
+			}
+			report(prop, sig+":after="+last+tag, msg+" after ["+ledger.HistString(hist)+"] in "+u.String(), u, hist)
 		}
 	}
 	var obs strings.Builder
